@@ -1010,12 +1010,11 @@ def check_bounds(ctx, inst="C10.bounds"):
         ])
 
 
-def check_marker_writers(ctx):
+def check_marker_writers(ctx, inst="C10.marker/writers"):
     """every block of a retired extent carries a marker bound to *its own* sector and to the blocks remaining from there:
     both chunked writers (buffered and O_DIRECT) must pass (sector + offset, sectors - offset) to fill_retirement_markers and
     write the chunk at sector + offset"""
     from feoxlint import bounds as B
-    inst = "C10.marker/writers"
     for fn in ("DiskIO::write_retirement_extent_buffered", "DiskIO::write_retirement_extent_direct"):
         b = ctx.fn(fn, inst)
         if b is None:
